@@ -33,6 +33,24 @@ type Failure struct {
 	// Fatal: the code under test is left in a state in which the process cannot usefully go on (e.g. a goroutine spinning
 	// for ever inside it): the failure file is written and the process exits at once, without shrinking.
 	Fatal bool `json:"-"`
+	// Also: further, independent failures of the same run (other clauses of the oracle). The pipeline reports the first
+	// failure - this one or one of these - that no known finding explains, so that an explained symptom cannot hide an
+	// unexplained one.
+	Also []*Failure `json:"-"`
+}
+
+// unexplained returns the first of f and f.Also that no known finding matches (with ""), or f and the finding matching it.
+func unexplained(ks []known, f *Failure) (*Failure, string) {
+	first := matchKnown(ks, f)
+	if first == "" {
+		return f, ""
+	}
+	for _, a := range f.Also {
+		if matchKnown(ks, a) == "" {
+			return a, ""
+		}
+	}
+	return f, first
 }
 
 func Failf(symptom, format string, args ...interface{}) *Failure {
@@ -328,7 +346,8 @@ func Main(t *testing.T, s Spec) {
 		if f == nil {
 			return
 		}
-		if id := matchKnown(ks, f); id != "" {
+		var id string
+		if f, id = unexplained(ks, f); id != "" {
 			st.mu.Lock()
 			st.Excluded[id]++
 			st.mu.Unlock()
@@ -374,7 +393,8 @@ func Direct(t *testing.T, s Spec) func(c interface{}) {
 		if f == nil {
 			return
 		}
-		if id := matchKnown(ks, f); id != "" {
+		var id string
+		if f, id = unexplained(ks, f); id != "" {
 			st.mu.Lock()
 			st.Excluded[id]++
 			st.mu.Unlock()
@@ -425,6 +445,7 @@ func replay(t *testing.T, s Spec, st *stats, ks []known) {
 		st.add(s.ID, c, r, s.MaxSamples)
 		if f != nil {
 			failed++
+			f, _ = unexplained(ks, f)
 			if last == nil || matchKnown(ks, last) != "" {
 				last = f // keep the first failure that no known finding explains; otherwise the latest
 			}
